@@ -11,16 +11,16 @@ theorem coherent_init : Coherent ({} : TxSt) := by
 
 theorem realmFn_dep {d d' : Db} {s : Slot} {f : Fn} {k : Nat} {v : Int} {dep : Bool}
     (h : realmFn d s f k v dep = .ok d') :
-    d'.da = d.da ∧ d'.db = d.db ∧ d'.dc = d.dc ∧ d'.dh = d.dh := by
+    d'.da = d.da ∧ d'.db = d.db ∧ d'.dc = d.dc ∧ d'.dh = d.dh ∧ d'.dp = d.dp := by
   cases s <;> cases f <;> simp only [realmFn] at h <;>
     first
-    | (cases h; exact ⟨rfl, rfl, rfl, rfl⟩)
-    | (split at h <;> first | (cases h; exact ⟨rfl, rfl, rfl, rfl⟩) | cases h)
+    | (cases h; exact ⟨rfl, rfl, rfl, rfl, rfl⟩)
+    | (split at h <;> first | (cases h; exact ⟨rfl, rfl, rfl, rfl, rfl⟩) | cases h)
     | cases h
 
-theorem dep_of_flags {d d' : Db} (h : d'.da = d.da ∧ d'.db = d.db ∧ d'.dc = d.dc ∧ d'.dh = d.dh) (s : Slot) :
+theorem dep_of_flags {d d' : Db} (h : d'.da = d.da ∧ d'.db = d.db ∧ d'.dc = d.dc ∧ d'.dh = d.dh ∧ d'.dp = d.dp) (s : Slot) :
     d'.dep s = d.dep s := by
-  cases s <;> simp [Db.dep, h.1, h.2.1, h.2.2.1, h.2.2.2]
+  cases s <;> simp [Db.dep, h.1, h.2.1, h.2.2.1, h.2.2.2.1, h.2.2.2.2]
 
 theorem contains_addNode (ns : List Slot) (s s' : Slot) :
     (addNode ns s).contains s' = (ns.contains s' || s' == s) := by
@@ -38,13 +38,13 @@ theorem dep_setDep (d : Db) (s s' : Slot) : (d.setDep s).dep s' = (d.dep s' || s
   cases s <;> cases s' <;> simp [Db.setDep, Db.dep]
 
 theorem coherent_flags {t : TxSt} {d : Db} (h : Coherent t)
-    (hf : d.da = t.db.da ∧ d.db = t.db.db ∧ d.dc = t.db.dc ∧ d.dh = t.db.dh) (rs : List Nat) :
+    (hf : d.da = t.db.da ∧ d.db = t.db.db ∧ d.dc = t.db.dc ∧ d.dh = t.db.dh ∧ d.dp = t.db.dp) (rs : List Nat) :
     Coherent { t with db := d, runs := rs } := by
   refine ⟨fun s => ?_, fun hh => ?_⟩
   · show t.nodes.contains s = d.dep s
     rw [dep_of_flags hf s]; exact h.1 s
   · show d.da = true ∧ d.db = true
-    rw [hf.1, hf.2.1]; exact h.2 (by rw [← hf.2.2.2]; exact hh)
+    rw [hf.1, hf.2.1]; exact h.2 (by rw [← hf.2.2.2.1]; exact hh)
 
 theorem coherent_add {t : TxSt} (h : Coherent t) (s : Slot)
     (hs : s.isHub = true → t.db.da = true ∧ t.db.db = true) :
@@ -64,6 +64,9 @@ theorem coherent_add {t : TxSt} (h : Coherent t) (s : Slot)
       have := h.2 (by simpa [Db.setDep] using hh)
       simp [Db.setDep, this.1]
     | c =>
+      have := h.2 (by simpa [Db.setDep] using hh)
+      simpa [Db.setDep] using this
+    | p =>
       have := h.2 (by simpa [Db.setDep] using hh)
       simpa [Db.setDep] using this
 
@@ -104,26 +107,27 @@ theorem applyMsg_spec (who : Nat) (t : TxSt) (m : Msg) (h : Coherent t) :
         | a => rfl
         | b => rfl
         | c => rfl
+        | p => rfl
       simp only [applyMsg, specMsg, hc, hd, ha, hb, h3, Bool.not_true, Bool.false_eq_true, if_false]
       cases hr : realmFn t.db s f k v dep with
       | error e => rfl
       | ok d => exact ⟨rfl, coherent_flags h (realmFn_dep hr) t.runs⟩
   | run sc k v =>
     cases sc with
-    | noop => exact ⟨rfl, coherent_flags h ⟨rfl, rfl, rfl, rfl⟩ _⟩
+    | noop => exact ⟨rfl, coherent_flags h ⟨rfl, rfl, rfl, rfl, rfl⟩ _⟩
     | fail => rfl
     | read =>
       cases h1 : t.db.da with
       | false => simp only [applyMsg, specMsg, h1, Bool.not_false, if_true]
       | true =>
         simp only [applyMsg, specMsg, ha, h1, Bool.not_true, Bool.false_eq_true, if_false]
-        exact ⟨by first | rfl | trivial, coherent_flags h ⟨rfl, rfl, rfl, rfl⟩ _⟩
+        exact ⟨by first | rfl | trivial, coherent_flags h ⟨rfl, rfl, rfl, rfl, rfl⟩ _⟩
     | ab =>
       cases h1 : (t.db.da && t.db.db) with
       | false => simp only [applyMsg, specMsg, h1, Bool.not_false, if_true]
       | true =>
         simp only [applyMsg, specMsg, ha, hb, h1, Bool.not_true, Bool.false_eq_true, if_false]
-        exact ⟨by first | rfl | trivial, coherent_flags h ⟨rfl, rfl, rfl, rfl⟩ _⟩
+        exact ⟨by first | rfl | trivial, coherent_flags h ⟨rfl, rfl, rfl, rfl, rfl⟩ _⟩
 
 theorem applyMsgs_spec (who : Nat) (msgs : List Msg) (t : TxSt) (h : Coherent t) :
     match applyMsgs who t msgs with
@@ -166,7 +170,7 @@ theorem restart_coherent (t : TxSt) (h : Coherent t) : Coherent (restart t) := b
   refine ⟨fun s => ?_, h.2⟩
   show (allSlots.filter t.db.dep).contains s = t.db.dep s
   cases s <;> cases h1 : t.db.da <;> cases h2 : t.db.db <;> cases h3 : t.db.dc <;> cases h4 : t.db.dh <;>
-    simp [allSlots, List.filter, Db.dep, h1, h2, h3, h4]
+    cases h5 : t.db.dp <;> simp [allSlots, List.filter, Db.dep, h1, h2, h3, h4, h5]
 
 theorem restart_db (t : TxSt) : (restart t).db = t.db := rfl
 
